@@ -1,5 +1,7 @@
 import Frp.Model.Group
 import Frp.Lemmas.Group
+import Frp.Lemmas.GroupConn
+import Frp.Lemmas.GroupAcct
 /-
   C13 — Load-balancing groups: keyed membership, live members only, clean lifecycle.
 
@@ -39,6 +41,24 @@ def connHolds (owner : Option Obj) (live : List Str) (got : Option Str) : Bool :
   | some o, none => !(o.members.any live.contains)
   | some o, some m => o.members.contains m && live.contains m
 
+/-- what the implementation did, by the end of an op, with a user connection that had reached the
+    endpoint of a group object and was waiting there for a member to pick it up -/
+inductive Fate
+  | waiting             -- still open, no data, not closed
+  | to (m : Str)        -- member m received it
+  | closed              -- frps closed it
+deriving DecidableEq, Repr
+
+/-- delivery clause on a WAITING connection (arrival decoupled from pick-up).  `o` = the object whose
+    endpoint it reached, as the model has it after the op; `live` = proxies that joined and have not
+    left, `accepting` ⊆ `live` = those whose accept loop is running (both the harness's own books).
+    Delivered ⇒ to a listed live member.  Closed ⇒ no listed member is live (none is lost while a
+    member is live).  Still waiting ⇒ some listed member is live (else it is stranded: nobody will
+    ever take or close it) and none of them is accepting (else it is stranded while a member is ready). -/
+def pendHolds (o : Obj) (live accepting : List Str) : Fate → Bool
+  | .to m => o.members.contains m && live.contains m
+  | .closed => !(o.members.any live.contains)
+  | .waiting => o.members.any live.contains && !(o.members.any accepting.contains)
 
 /-! ## 1. Keyed membership (one join step; holds in every state, hence under every interleaving) -/
 
@@ -295,6 +315,20 @@ theorem repaired_one_object_per_name (k : Kind) (allow : List Nat) (ls : List La
   have b := ((repaired_inv k allow ls s h).pop j oj hj mj).2
   rw [hn, b] at a; cases a; rfl
 
+/-! ### the hand-off channel: unbuffered, so it never holds a connection by itself -/
+
+theorem repaired_cinv (k : Kind) (allow : List Nat) (ls : List Label) (s : St)
+    (h : run repaired (init k allow) ls = some s) : CInv s :=
+  cinv_run (fx := repaired) rfl ls (cinv_init k allow) h
+
+/-- `make(chan net.Conn)`: in every reachable state every hand-off channel is empty -/
+theorem repaired_queue_empty (k : Kind) (allow : List Nat) (ls : List Label) (s : St)
+    (h : run repaired (init k allow) ls = some s) (gid : Nat) : (s.obj gid).queue = [] := by
+  have hb := (repaired_cinv k allow ls s h).bounded gid
+  have hc : s.cap = 0 := by rw [run_cap ls h]; rfl
+  rw [hc] at hb
+  exact List.length_eq_zero_iff.1 (Nat.le_zero.1 hb)
+
 /-- **every accepted connection is handed to a live member, none is stranded while one is live**:
     in every reachable state, a connection in a worker's hands whose group lists at least one
     member can be received by each listed member and by nobody else; the send cannot fail. -/
@@ -305,7 +339,8 @@ theorem repaired_delivery (k : Kind) (allow : List Nat) (ls : List Label) (s : S
     (m ∉ (s.obj gid).members → step repaired s (.handoff c m) = none) := by
   have hi := repaired_inv k allow ls s h
   have hcc := (hi.pop gid _ (get_of_members hm) hm).1
-  simp only [step, hi.noPanic, hc, hcc]
+  have hq := repaired_queue_empty k allow ls s h gid
+  simp only [step, hi.noPanic, hc, hcc, hq]
   constructor
   · intro hmem; simp [hmem]
   · intro hmem; simp [hmem]
@@ -347,6 +382,165 @@ theorem repaired_last_leave (k : Kind) (allow : List Nat) (ls : List Label) (s s
             rcases Nat.lt_or_ge gid s.objs.length with hlt | hge
             · exact hlt
             · rw [List.getElem?_eq_none hge] at hg; cases hg)]
+
+/-! ### connections that are waiting for their hand-off when members leave
+
+A connection that reached the group's listener is, at every moment, in exactly one place: with the
+worker (`inflight`: kernel backlog / blocked in the send), with the member that received it
+(`delivered`), closed (`dropped`) — or, if the code were different, inside the channel's buffer
+(`queue`) or open in nobody's hands (`limbo`).  The last two are where a connection can be
+stranded; the theorems say they stay empty under every interleaving, and what happens to the
+waiting connections when the last member leaves. -/
+
+/-- connections nobody will ever serve or close: left open after a failed hand-off, or buffered in
+    the channel of a group object that has no member (only a member receives) -/
+def strandedConns (s : St) : List Nat :=
+  s.limbo ++ (s.objs.filter (fun o => o.members.isEmpty)).flatMap (·.queue)
+
+def NoStranded (fx : Fix) (s0 : St) : Prop := ∀ ls s, run fx s0 ls = some s → strandedConns s = []
+
+theorem repaired_no_limbo (k : Kind) (allow : List Nat) : NoLimbo repaired (init k allow) :=
+  fun ls s h => (repaired_cinv k allow ls s h).noLimbo
+
+/-- **no connection is ever stranded**, whatever the order of arrivals, pick-ups, joins and leaves -/
+theorem repaired_no_stranded (k : Kind) (allow : List Nat) : NoStranded repaired (init k allow) := by
+  intro ls s h
+  unfold strandedConns
+  rw [(repaired_cinv k allow ls s h).noLimbo, List.nil_append, List.flatMap_eq_nil_iff]
+  intro o ho
+  obtain ⟨gid, hlt, hg⟩ := List.mem_iff_getElem.1 (List.mem_filter.1 ho).1
+  have := repaired_queue_empty k allow ls s h gid
+  simp only [St.obj, List.getElem?_eq_getElem hlt, Option.getD_some, hg] at this
+  exact this
+
+/-- **while a member is live the worker keeps the connection**: the send cannot complete without a
+    receiver (nothing is buffered, nothing is closed); it completes with each listed member
+    (`repaired_delivery`). -/
+theorem repaired_pending_waits (k : Kind) (allow : List Nat) (ls : List Label) (s : St)
+    (h : run repaired (init k allow) ls = some s) (c gid : Nat)
+    (hc : s.inflight.lookup c = some gid) (hm : (s.obj gid).members ≠ []) :
+    step repaired s (.send c) = none := by
+  have hi := repaired_inv k allow ls s h
+  have hcc := (hi.pop gid _ (get_of_members hm) hm).1
+  have hcap : s.cap = 0 := by rw [run_cap ls h]; rfl
+  simp [step, hi.noPanic, hc, hcc, hcap]
+
+/-- **connections still waiting when the last member has left are closed**: in every reachable
+    state, for a connection in the worker's hands whose group has no member any more, the worker's
+    send (with whatever receiver `m` one names, or with none) is enabled, fails, and the connection
+    ends in `dropped` (closed) — never in limbo, never in a buffer. -/
+theorem repaired_pending_closed (k : Kind) (allow : List Nat) (ls : List Label) (s : St)
+    (h : run repaired (init k allow) ls = some s) (c gid : Nat)
+    (hc : s.inflight.lookup c = some gid) (hm : (s.obj gid).members = []) (l : Label)
+    (hl : (∃ m, l = .handoff c m) ∨ l = .send c) :
+    ∃ s', step repaired s l = some (s', .stranded) ∧ c ∈ s'.dropped ∧ s'.limbo = [] ∧
+      s'.inflight.lookup c = none := by
+  have hi := repaired_inv k allow ls s h
+  have hci := repaired_cinv k allow ls s h
+  have hheld := (hci.held c gid (mem_of_lookup hc)).2
+  have hclosed : (s.obj gid).chClosed = true := by
+    rcases hheld with ho | hcl
+    · have := (hi.openIff gid _ (get_of_lnOpen ho)).1 ho
+      exact absurd hm this
+    · exact hcl
+  have hlk : (s.inflight.filter (fun x => !(x.1 == c))).lookup c = none := by
+    generalize s.inflight = l
+    induction l with
+    | nil => rfl
+    | cons x t ih =>
+      obtain ⟨a, b⟩ := x
+      by_cases hac : a = c
+      · subst hac; simp [List.filter, ih]
+      · have h1 : (a == c) = false := by simpa using hac
+        have h2 : (c == a) = false := by simpa using (Ne.symm hac)
+        simp only [List.filter, h1, Bool.not_false, List.lookup_cons, h2, ih]
+  rcases hl with ⟨m, rfl⟩ | rfl
+  · refine ⟨_, by simp only [step, hi.noPanic, hc, hclosed, repaired]; rfl, ?_, ?_, ?_⟩
+    · exact List.mem_cons_self
+    · exact hci.noLimbo
+    · exact hlk
+  · refine ⟨_, by simp only [step, hi.noPanic, hc, hclosed, repaired]; rfl, ?_, ?_, ?_⟩
+    · exact List.mem_cons_self
+    · exact hci.noLimbo
+    · exact hlk
+
+theorem repaired_ainv (k : Kind) (allow : List Nat) (ls : List Label) (s : St)
+    (h : run repaired (init k allow) ls = some s) : AInv s :=
+  ainv_run (fx := repaired) rfl ls (ainv_init k allow) (cinv_init k allow) rfl h
+
+/-- **none is lost**: under every interleaving, a connection that reached a group's listener is
+    still with the worker (waiting for a member), or was received by a member, or was closed. -/
+theorem repaired_none_lost (k : Kind) (allow : List Nat) (ls : List Label) (s : St)
+    (h : run repaired (init k allow) ls = some s) (c : Nat) (hc : c ∈ s.seen) :
+    (∃ g, (c, g) ∈ s.inflight) ∨ (∃ m, (c, m) ∈ s.delivered) ∨ c ∈ s.dropped := by
+  rcases (repaired_ainv k allow ls s h).acct c hc with a | a | a
+  · obtain ⟨x, hx, rfl⟩ := List.mem_map.1 a; exact Or.inl ⟨x.2, hx⟩
+  · obtain ⟨x, hx, rfl⟩ := List.mem_map.1 a; exact Or.inr (Or.inl ⟨x.2, hx⟩)
+  · exact Or.inr (Or.inr a)
+
+theorem unique_of_nodup_keys {l : List (Nat × Str)} (hn : (l.map (·.1)).Nodup) {c : Nat} {m m' : Str}
+    (h1 : (c, m) ∈ l) (h2 : (c, m') ∈ l) : m = m' := by
+  induction l with
+  | nil => cases h1
+  | cons x t ih =>
+    simp only [List.map_cons, List.nodup_cons] at hn
+    rcases List.mem_cons.1 h1 with e1 | e1 <;> rcases List.mem_cons.1 h2 with e2 | e2
+    · rw [← e1] at e2; cases e2; rfl
+    · subst e1; exact absurd (List.mem_map.2 ⟨(c, m'), e2, rfl⟩) hn.1
+    · subst e2; exact absurd (List.mem_map.2 ⟨(c, m), e1, rfl⟩) hn.1
+    · exact ih hn.2 e1 e2
+
+/-- **to exactly one member, and to no one else**: a delivered connection was received by one
+    member only, the worker no longer holds it, and it was not closed by frps. -/
+theorem repaired_delivered_once (k : Kind) (allow : List Nat) (ls : List Label) (s : St)
+    (h : run repaired (init k allow) ls = some s) (c : Nat) (m : Str) (hd : (c, m) ∈ s.delivered) :
+    (∀ m', (c, m') ∈ s.delivered → m' = m) ∧ (∀ g, (c, g) ∉ s.inflight) ∧ c ∉ s.dropped := by
+  have hi := repaired_ainv k allow ls s h
+  have hk : c ∈ s.dk := List.mem_map.2 ⟨(c, m), hd, rfl⟩
+  refine ⟨fun m' h' => unique_of_nodup_keys hi.once h' hd, ?_, hi.dis2 c hk⟩
+  intro g hg
+  exact (hi.dis1 c (List.mem_map.2 ⟨(c, g), hg, rfl⟩)).1 hk
+
+/-- a world that differs from the code in ONE respect: the hand-off channels have room for 16 -/
+def wBuffered : St := { init .tcp [1, 2, 3, 4, 5, 6, 7, 8] with cap := 16 }
+
+/-- **why the channel must stay unbuffered** (`make(chan net.Conn, n)`, n > 0, all repairs in place):
+    two connections arrive while the only member is between two Accept calls, the worker's sends
+    complete into the buffer, the member leaves: the group is gone (name free, endpoint closed, it
+    can be created again at once on a fresh object) and the two connections sit in the closed
+    channel of the dead object for ever — no label can take or close them. -/
+theorem buffered_stranded_witness :
+    (run repaired wBuffered
+      [.lookup wm1 wg, .enter wm1 wk wTcp {}, .accept 7 0, .send 7, .accept 8 0, .send 8, .leaveL wm1 0,
+       .lookup wm2 wg, .enter wm2 wk wTcp {}]).map
+      (fun s => strandedConns s == [7, 8] && (s.obj 0).members.isEmpty && !(s.obj 0).lnOpen &&
+                s.table == [(wg, 1)] && (s.obj 1).members == [wm2] && (s.obj 1).lnOpen &&
+                s.dropped.isEmpty && s.delivered.isEmpty && !s.panicked) = some true ∧
+    ¬ NoStranded repaired wBuffered := by
+  refine ⟨by decide, ?_⟩
+  intro h
+  have : (run repaired wBuffered
+      [.lookup wm1 wg, .enter wm1 wk wTcp {}, .accept 7 0, .send 7, .leaveL wm1 0]).map strandedConns = some [7] := by
+    decide
+  cases hr : run repaired wBuffered
+      [.lookup wm1 wg, .enter wm1 wk wTcp {}, .accept 7 0, .send 7, .leaveL wm1 0] with
+  | none => rw [hr] at this; cases this
+  | some s => rw [hr] at this; have := h _ _ hr; simp_all
+
+/-- with the buffer, connections are still delivered (once, in order) while a member is live — so
+    nothing but a leave with connections pending shows the difference -/
+example : (run repaired wBuffered
+    [.lookup wm1 wg, .enter wm1 wk wTcp {}, .accept 7 0, .send 7, .accept 8 0, .send 8,
+     .recv wm1 0, .recv wm1 0, .leaveL wm1 0]).map
+    (fun s => (s.delivered, strandedConns s)) = some ([(8, wm1), (7, wm1)], []) := by decide
+
+/-- the same arrivals in the world as it is: the sends block, the leave closes the channel, the
+    sends fail and both connections are closed -/
+example : (run repaired (w0 .tcp)
+    [.lookup wm1 wg, .enter wm1 wk wTcp {}, .accept 7 0, .accept 8 0, .leaveL wm1 0,
+     .send 7, .handoff 8 wm1]).map
+    (fun s => (s.dropped, s.inflight, strandedConns s)) = some ([8, 7], [], []) ∧
+    run repaired (w0 .tcp) [.lookup wm1 wg, .enter wm1 wk wTcp {}, .accept 7 0, .send 7] = none := by decide
 
 /-! ### ports: what `TCPGroup.Listen` reports is what it listens on, and nothing leaks -/
 
